@@ -22,6 +22,10 @@ class ArrayType(SerializableType):
         self._capacity = int(capacity)
         if self._capacity < 1:
             raise InvalidNumberOfElementsError("Array capacity cannot be less than 1")
+        from ._composite import ServiceType  # pylint: disable=import-outside-toplevel,cyclic-import
+
+        if isinstance(element_type, ServiceType):  # Not serializable, has no bit length set.
+            raise TypeParameterError("A service type cannot be used as an array element type: %s" % element_type)
 
     @property
     def deprecated(self) -> bool:
